@@ -212,14 +212,40 @@ pub fn node_at<'a>(root: &'a MNode, path: &[usize]) -> &'a MNode {
     n
 }
 
+#[derive(Clone, Copy, Debug, Default, PartialEq, Eq)]
+pub struct ResolveInfo {
+    /// number of default branches passed through implicitly while looking a mnemonic up
+    pub implicit_default_branches: usize,
+    /// the header ended on a branch and its default leaf was taken
+    pub ended_on_branch: bool,
+    /// default branches descended at the end of the header to reach the default leaf
+    pub trailing_default_branches: usize,
+    /// a "1" suffix was present on exactly one side of some match
+    pub suffix1_elided_in_candidate: bool,
+    pub suffix1_elided_in_definition: bool,
+    /// the matched node has a default-leaf sibling (named child preferred over default leaf)
+    pub named_child_beside_default_leaf: bool,
+}
+
 /// Find the child designated by `m` when standing at branch `at`: a matching child, else look
 /// through the default child branch (recursively). Returns the full path of the found node.
-fn find_from(root: &MNode, at: &[usize], m: &str) -> Option<Vec<usize>> {
+fn find_from(root: &MNode, at: &[usize], m: &str, info: &mut ResolveInfo) -> Option<Vec<usize>> {
     let n = node_at(root, at);
     for (i, c) in n.children().iter().enumerate() {
         if mnemonic_matches(&c.name, m) {
             let mut p = at.to_vec();
             p.push(i);
+            let (_, ds) = split_suffix(&c.name);
+            let (_, cs) = split_suffix(m);
+            if ds == Some("1") && cs.is_none() {
+                info.suffix1_elided_in_candidate = true;
+            }
+            if ds.is_none() && cs == Some("1") {
+                info.suffix1_elided_in_definition = true;
+            }
+            if n.children().iter().any(|x| x.default && matches!(x.kind, MKind::Leaf(_))) && !c.default {
+                info.named_child_beside_default_leaf = true;
+            }
             return Some(p);
         }
     }
@@ -228,7 +254,8 @@ fn find_from(root: &MNode, at: &[usize], m: &str) -> Option<Vec<usize>> {
             if let MKind::Branch(_) = c.kind {
                 let mut p = at.to_vec();
                 p.push(i);
-                return find_from(root, &p, m);
+                info.implicit_default_branches += 1;
+                return find_from(root, &p, m, info);
             }
         }
     }
@@ -237,7 +264,7 @@ fn find_from(root: &MNode, at: &[usize], m: &str) -> Option<Vec<usize>> {
 
 /// A header that ends on branch `at` designates its default leaf, else the default leaf of
 /// its default branch (recursively).
-fn default_of(root: &MNode, at: &[usize]) -> Option<H> {
+fn default_of(root: &MNode, at: &[usize], info: &mut ResolveInfo) -> Option<H> {
     let n = node_at(root, at);
     for c in n.children() {
         if c.default {
@@ -251,7 +278,8 @@ fn default_of(root: &MNode, at: &[usize]) -> Option<H> {
             if let MKind::Branch(_) = c.kind {
                 let mut p = at.to_vec();
                 p.push(i);
-                return default_of(root, &p);
+                info.trailing_default_branches += 1;
+                return default_of(root, &p, info);
             }
         }
     }
@@ -261,42 +289,53 @@ fn default_of(root: &MNode, at: &[usize]) -> Option<H> {
 /// Resolve one unit header. `level` is the level left by the previous unit of the same
 /// message (ignored for the first unit and for units with a leading colon).
 pub fn resolve(root: &MNode, level: &[usize], first: bool, colon: bool, path: &[String]) -> Resolved {
+    resolve_ex(root, level, first, colon, path).0
+}
+
+pub fn resolve_ex(root: &MNode, level: &[usize], first: bool, colon: bool, path: &[String]) -> (Resolved, ResolveInfo) {
+    let mut info = ResolveInfo::default();
     if path.is_empty() {
-        return Resolved::Undefined;
+        return (Resolved::Undefined, info);
     }
     if path[0].starts_with('*') {
         // common command: resolves at the root, does not move the level
         if path.len() != 1 {
-            return Resolved::Undefined;
+            return (Resolved::Undefined, info);
         }
-        return match find_from(root, &[], &path[0]) {
+        return match find_from(root, &[], &path[0], &mut info) {
             Some(p) => match node_at(root, &p).kind {
-                MKind::Leaf(h) => Resolved::Leaf {
-                    h,
-                    level: level.to_vec(),
-                },
-                _ => Resolved::Undefined,
+                MKind::Leaf(h) => (
+                    Resolved::Leaf {
+                        h,
+                        level: level.to_vec(),
+                    },
+                    info,
+                ),
+                _ => (Resolved::Undefined, info),
             },
-            None => Resolved::Undefined,
+            None => (Resolved::Undefined, info),
         };
     }
     let mut cur: Vec<usize> = if first || colon { vec![] } else { level.to_vec() };
     let mut new_level = cur.clone();
     for (k, m) in path.iter().enumerate() {
-        let p = match find_from(root, &cur, m) {
+        let p = match find_from(root, &cur, m, &mut info) {
             Some(p) => p,
-            None => return Resolved::Undefined,
+            None => return (Resolved::Undefined, info),
         };
         new_level = p[..p.len() - 1].to_vec();
         match &node_at(root, &p).kind {
             MKind::Leaf(h) => {
                 if k + 1 == path.len() {
-                    return Resolved::Leaf {
-                        h: *h,
-                        level: new_level,
-                    };
+                    return (
+                        Resolved::Leaf {
+                            h: *h,
+                            level: new_level,
+                        },
+                        info,
+                    );
                 } else {
-                    return Resolved::Undefined;
+                    return (Resolved::Undefined, info);
                 }
             }
             MKind::Branch(_) => {
@@ -304,9 +343,10 @@ pub fn resolve(root: &MNode, level: &[usize], first: bool, colon: bool, path: &[
             }
         }
     }
-    match default_of(root, &cur) {
-        Some(h) => Resolved::Leaf { h, level: new_level },
-        None => Resolved::Undefined,
+    info.ended_on_branch = true;
+    match default_of(root, &cur, &mut info) {
+        Some(h) => (Resolved::Leaf { h, level: new_level }, info),
+        None => (Resolved::Undefined, info),
     }
 }
 
